@@ -110,6 +110,10 @@ def run_parjob(exe, args):
             kv = c08.parse_kv(l)
             if kv["sum_ok"] != "1" or kv["visits"] != kv["alive"]:
                 bad.append("after run(): " + l)
+            if kv.get("marks_wrong", "0") != "0" or kv.get("marked_early", "0") != "0":
+                bad.append("deferred destroy() issued by the tasks of a parallel job: %s entit(ies) are marked / not marked for destruction "
+                           "contrary to what the tasks asked for, %s seen marked before the job returned: %s"
+                           % (kv.get("marks_wrong"), kv.get("marked_early"), l))
             if kv.get("ntj_ok", "1") != "1":
                 bad.append("run-time described job (NonTemplateJob): a requested component was not updated exactly once per entity, "
                            "or a component the job did not request was modified: " + l)
